@@ -117,6 +117,7 @@ def nonprom_table():
     """name -> (category used in the mechanism key, value)."""
     return {
         'int0': ('int', 0), 'int1': ('int', 1), 'int-1': ('int', -1), 'int8': ('int', 8), 'int-big': ('int', 2 ** 70),
+        'int-huge': ('int', 10 ** 5000), 'int-huge-negative': ('int', -10 ** 6000),        # beyond what str() of an int is allowed to print
         'int-uint': ('int', None), 'int-len': ('int', None),
         'true': ('bool', True), 'false': ('bool', False),
         'float1': ('float', 1.0), 'float0': ('float', 0.0), 'nan': ('float', float('nan')),
